@@ -134,6 +134,11 @@ def entry_points(g):
     yield "neighbors_unhashable_filter", {}, lambda c: names(helpers.neighbors(v0, oracles.ANY, oracles.NEIGHBOR, unh))
     yield "bft_unhashable_filter", {}, lambda c: names(breadthfirst.bft(uni, v0, ff_via=unh, direction_sensitive=oracles.ANY,
                                                                          unknown_handling=oracles.NEIGHBOR))
+    # the query asked of EVERY vertex of the graph (members or not; ends of links, vertices a link merely lists as a
+    # further entry, isolated ones)
+    yield "neighbors:of_every_vertex", {}, lambda c: [
+        oracles.outcome(lambda v=v, d=d: names(helpers.neighbors(v, d, oracles.NEIGHBOR)))[0]
+        for v in g.verts for d in (oracles.ANY, oracles.FORWARD, oracles.BACKWARD)]
     # many DISTINCT lookups on the same vertices (per-call lambdas as filters, every direction / unknown-handling
     # setting): however many answers an implementation chooses to remember, the graph stays as it was
     yield "neighbors:60_distinct_filters", {}, lambda c: [
@@ -443,6 +448,11 @@ def run(ctx):
                                     uni_mode="all" if rng.random() < 0.6 else "rand")
             if not spec.get("uni"):
                 spec["uni"] = [j for j in range(len(spec["verts"])) if rng.random() < 0.8] or [0]
+            if spec["edges"] and i % 4 == 2:
+                # an edge that lists a further vertex besides its two ends (Vertex(links=[e]) / add_to_link produce
+                # that); reads may treat that vertex as they like - they leave it attached as it is
+                spec["extra"] = [[rng.randrange(len(spec["edges"])), rng.randrange(len(spec["verts"]))]]
+                ctx.count("graphs_with_a_link_listing_a_further_vertex")
             if spec["edges"] and i % 8 == 5:
                 # a graph history no constructor produces: an edge that lost one end.  Reads that reach it may
                 # refuse (IndexError) - they must still leave it exactly as it is
